@@ -215,21 +215,23 @@ PROPS = {
 
 # Additions of rounds 10 to 14 of the seeded-change campaign (see DESIGN.md section 11).
 RULE_ADDENDA = {
-    "C01": "Also: $match-case rules whose indexed window holds a capital, $important rules, zero-hash $domain values and sources, fragment patterns, letters that change length in lower case, deep source hosts, CRLF lists.",
-    "C02": "Also: hosts lines written at text level (several names per line, repeated names, zoned and 45-byte addresses, 280..420 aliases), regex alternations of anchored literals, client names differing in letter case only.",
+    "C01": "Also: $match-case rules whose indexed window holds a capital, $important rules, zero-hash $domain values and sources, fragment patterns, letters that change length in lower case, deep source hosts, CRLF lists, $domain values and sources of hexadecimal digits only, a byte-order mark before a first-line rule.",
+    "C02": "Also: hosts lines written at text level (several names per line, repeated names, zoned and 45-byte addresses, 280..420 aliases), regex alternations of anchored literals, client names differing in letter case only, a name of exactly 253 bytes, $badfilter twins whose $client subnet is spelled with other host bits.",
     "C03": "Also: the rule is written in option variants ($match-case,document / $document,match-case / $important) that must not change the mask semantics; addresses embedding ws://<mask> further on.",
-    "C05": "Also: slash-delimited masks without regex specials, domains followed by a separator that does not end the host, bystander rules in the engine stage.",
-    "C06": "Also: $stealth first in the slice, rewrite / other / rewrite orders, referrer rules in capitals, NS/SOA/CAA rewrites, the same slices evaluated twice.",
-    "C08": "Also: a FOREIGN rule whose text has the FastHash of the $badfilter rule (built by meet-in-the-middle at start up), twins filed under the last window of URLs that grow in lower case, a pair around the storage block size.",
-    "C10": "Also: the accepted record type must be the one written and a real one (DNS library table); type names of 17 bytes and more; extended response codes with a record.",
-    "C11": "Also: concurrent retrieval on one storage with the case recorded beforehand, so that a worker killed by the runtime (concurrent map access) is reported with its case; indented, aligned 32-byte, two-byte and >=64 KiB lines.",
-    "C12": "Also: more matching $badfilter rules than other rules, $dnsrewrite values containing ';', engines over empty storage; 20 s watchdog per case (does-not-terminate).",
-    "C13": "Also: results of earlier queries are re-inspected after later ones (no shared scratch state), identical queries repeated (no map-order dependence), reverse renamed-apart history, transient faults.",
+    "C05": "Also: slash-delimited masks without regex specials, domains followed by a separator that does not end the host, bystander rules in the engine stage, expressions whose body begins or ends with a slash.",
+    "C06": "Also: $stealth first in the slice, rewrite / other / rewrite orders, referrer rules in capitals, NS/SOA/CAA rewrites, the same slices evaluated twice, referrer exceptions carrying $dnsrewrite.",
+    "C08": "Also: a FOREIGN rule whose text has the FastHash of the $badfilter rule (built by meet-in-the-middle at start up), twins filed under the last window of URLs that grow in lower case, a pair around the storage block size, patterns with an escaped dollar sign.",
+    "C07": "Also: every document-level exception against every main-pool rule of another verdict class (class order), both directions; selection with a $urlblock and a $genericblock exception on the referrer in either order.",
+    "C09": "Also: a record type numbered above 255 (URI) among the shapes.",
+    "C10": "Also: record types spelled with U+017F; the accepted record type must be the one written and a real one (DNS library table); type names of 17 bytes and more; extended response codes with a record.",
+    "C11": "Also: concurrent retrieval on one storage with the case recorded beforehand, so that a worker killed by the runtime (concurrent map access) is reported with its case; indented, aligned 32-byte, two-byte and >=64 KiB lines; the combined Engine built on a cold storage, string-backed against file-backed.",
+    "C12": "Also: more matching $badfilter rules than other rules, $dnsrewrite values containing ';', engines over empty storage, referrers whose host ends with a dot or has empty labels, comment lines with a lone carriage return; 20 s watchdog per case (does-not-terminate).",
+    "C13": "Also: results of earlier queries are re-inspected after later ones (no shared scratch state), identical queries repeated (no map-order dependence), reverse renamed-apart history, transient faults, case-sensitive expressions asked three times in a row.",
     "C14": "Also: hosts lines that repeat a name (race detector), a 1200-rule list whose retrievals exceed 1024 cache entries under 16 goroutines, opposite-order pairs, named clients.",
     "C15": "Also: rules on a domain and on its sub-domain with the host at the deeper level; exceptions listed before the generic rule they silence; colliding selectors.",
-    "C16": "Also engine kinds: referrer under $urlblock with an $important block of the page; $stealth(,important) exception beside the cosmetic exception; modifiers with values among the cosmetic ones.",
+    "C16": "Also engine kinds: referrer under $urlblock with an $important block of the page; $stealth(,important) exception beside the cosmetic exception; modifiers with values among the cosmetic ones; another cosmetic exception switched off by its $badfilter twin; a $domain-restricted block for the referrer.",
     "C17": "Also: one-byte hosts, hosts under a short suffix followed by hosts under a longer rule ending in it (no state kept between calls), several requests constructed together.",
-    "C18": "Also: three lists with an empty middle one, address tokens of 40..45 bytes, zoned addresses, BOM, CRLF, a long comment across the read buffer, first line asked again last.",
+    "C18": "Also: three lists with an empty middle one, address tokens of 40..45 bytes, zoned addresses, BOM, CRLF, a long comment across the read buffer, first line asked again last, names holding the bytes 0xA0 / 0x85 inside a character.",
     "C19": "Also fault kinds: handle closed behind the list and Close called (dead-lock watchdog 30 s), Close fault followed by a never-loaded rule, a goroutine held between cache miss and read while the fault goes on.",
     "C20": "Also: the same body filtered from eight goroutines at once equals the sequential output; bodies without marker holding bytes >= 0x80; gzip members; through the real proxy for a quarter of the cases.",
 }
